@@ -19,6 +19,13 @@ EStep(st, e, t) ==
               ELSE IF e.cbs # [i \in 1..t.ncb |-> <<i, en.code, en.reg, en.data, en.ts>>]
                 THEN Bad(st, "callbacks were not invoked once each, in order, with the new entry")
               ELSE Finish(st, e, new)
+      [] e.e = "bframe" ->
+           \* frame on another node's EMCY id: only that node's consumer and callback see it
+           LET en == Entry(e.d, e.ts) IN
+           IF e.raised THEN Bad(st, "on_emcy raised")
+           ELSE IF e.cbs # << <<99, en.code, en.reg, en.data, en.ts>> >>
+             THEN Bad(st, "a frame of another node did not invoke exactly that node's callbacks")
+           ELSE Finish(st, e, st)
       [] e.e = "reset" -> Finish(st, e, [log |-> <<>>, active |-> <<>>])
       [] e.e = "prod" ->
            \* producer on the local node -> bus -> consumer of the remote node
@@ -32,7 +39,9 @@ EStep(st, e, t) ==
       [] e.e = "wait" ->
            \* fed: frames delivered (with timestamps) while the caller was waiting
            LET ents == [i \in 1..Len(e.fed) |-> Entry(e.fed[i][1], e.fed[i][2])]
-               match(i) == e.filter < 0 \/ ents[i].code = e.filter
+               \* a frame that arrives after the time-out has expired is logged but never handed over
+               ontime(i) == \A m \in 1..i : e.fed[m][3] = 0
+               match(i) == ontime(i) /\ (e.filter < 0 \/ ents[i].code = e.filter)
                new == [log |-> st.log \o ents,
                        active |-> SinceReset(st.active \o ents)]
                \* (st.active never contains a reset entry, so SinceReset over the concatenation is exact)
@@ -41,7 +50,7 @@ EStep(st, e, t) ==
                      IF e.result # <<ents[j].code, ents[j].reg, ents[j].data, ents[j].ts>>
                        THEN Bad(st, "wait did not hand over the next matching entry")
                        ELSE Finish(st, e, new)
-                ELSE IF e.result # <<>> THEN Bad(st, "wait returned something although no matching entry arrived")
+                ELSE IF e.result # <<>> THEN Bad(st, "wait returned something although no matching entry arrived before the time-out")
                      ELSE Finish(st, e, new)
       [] OTHER -> Bad(st, "unknown event")
 TraceFile == JsonDeserialize(IOEnv.TRACE_FILE)
